@@ -35,6 +35,14 @@ func genOrder(t *rapid.T) OrderCase {
 	dirs := []string{"", "", "a", "b", "a/x", "zz"}
 	for i := 0; i < n; i++ {
 		p := filepath.Join(rapid.SampledFrom(dirs).Draw(t, "dir"), fmt.Sprintf("%02d-hook", rapid.IntRange(0, 40).Draw(t, "num")))
+		if rapid.IntRange(0, 3).Draw(t, "sibling") == 0 {
+			// a top-level file whose name continues the name of a directory with a byte lower than '/':
+			// the order of a directory walk differs from the order of the paths
+			p = rapid.SampledFrom([]string{"a-x", "a.sh", "a b", "b-1", "b.sh", "zz-top", "zz.sh", "a"}).Draw(t, "siblingName")
+			if p == "a" {
+				p = "zz/a" // (a file cannot share the name of a directory)
+			}
+		}
 		if seen[p] {
 			continue
 		}
